@@ -878,6 +878,133 @@ func TestVerifC18_pb_history(t *testing.T) {
 	r.RequireCounter("verify_bad", 3*64)
 }
 
+// TestVerifC18_pb_state: every operation sequence of length 1..4 on ONE VerifierState between FixedBlind and the
+// final Finalize: the accessors and a failed or repeated Finalize must not change what the state finalises to.
+func TestVerifC18_pb_state(t *testing.T) {
+	r := verifmc.Start(t, "C18", "pb_state")
+	defer r.Finish()
+	vs := &c18Sink{}
+	defer vs.Flush(r)
+	opNames := []string{"CopyBlind", "CopySalt", "Finalize(good)", "Finalize(altered)", "Finalize(good) on a copy of the state"}
+	r.Rule("safe-prime key 0: FixedBlind(m0,md0,fixed salt,fixed blind), one BlindSign, then all sequences of length 1..4 over {CopyBlind, CopySalt, Finalize(honest blind signature), " +
+		"Finalize(bit-flipped blind signature), Finalize on a value copy of the state} on the one VerifierState, and a closing Finalize: CopyBlind = the given blind and CopySalt = the given salt at every call, " +
+		"every Finalize(good) byte-identical to the signature fresh objects give and valid for crypto/rsa under the derived key, every Finalize(altered) refused; non-trivial = distinct sequence")
+	r.Set("alphabet", opNames)
+	r.Set("depth", 4)
+	k := c18pKeys(t, r)[0]
+	m0, md0 := []byte("state-0"), []byte("md")
+	salt := c18Rep(0x03, 48)
+	blind := c18pBlinds(k, false)[2].r
+	rInv := new(big.Int).ModInverse(blind, k.sk.N)
+	ref := c18pRun(k, m0, md0, salt, blind, false)
+	if ref.stage != "" || !k.oracle(m0, md0, ref.sig) {
+		vs.Violation("C18|partiallyblindrsa.state|fresh objects do not produce a valid signature", k.name, fmt.Sprintf("stage %q err %v", ref.stage, ref.err), nil)
+		return
+	}
+	signer, err := pb.NewSigner(k.sk, c18H)
+	if err != nil {
+		vs.Violation("C18|partiallyblindrsa.NewSigner|refuses a safe-prime key", k.name, err.Error(), nil)
+		return
+	}
+	goodBS, err := signer.BlindSign(ref.blinded, md0)
+	if err != nil {
+		vs.Violation("C18|partiallyblindrsa.state|BlindSign fails on an honest blinded message", k.name, err.Error(), nil)
+		return
+	}
+	badBS := verifmc.Flip(goodBS, 13)
+	nOps := len(opNames)
+	var seqs [][]int
+	for L := 1; L <= 4; L++ {
+		n := 1
+		for i := 0; i < L; i++ {
+			n *= nOps
+		}
+		for x := 0; x < n; x++ {
+			q, y := make([]int, L), x
+			for i := L - 1; i >= 0; i-- {
+				q[i] = y % nOps
+				y /= nOps
+			}
+			seqs = append(seqs, q)
+		}
+	}
+	verifmc.ParallelFor(len(seqs), func(hi int) {
+		seq := seqs[hi]
+		names := make([]string, len(seq))
+		for i, op := range seq {
+			names[i] = opNames[op]
+		}
+		id := fmt.Sprintf("%s/[%s]", k.name, strings.Join(names, ","))
+		if !r.Want(id) {
+			return
+		}
+		r.Trace(1)
+		r.Distinct(id)
+		ver := pb.NewVerifier(&k.sk.PublicKey, c18H)
+		blinded, state, err := ver.FixedBlind(m0, md0, salt, blind.Bytes(), rInv.Bytes())
+		if err != nil || !bytes.Equal(blinded, ref.blinded) {
+			vs.Violation("C18|partiallyblindrsa.state|FixedBlind differs from fresh objects", id, fmt.Sprint(err), nil)
+			return
+		}
+		all := append(append([]int{}, seq...), 2) // closing Finalize(good)
+		for step, op := range all {
+			opn := opNames[op]
+			at := fmt.Sprintf("%s step %d (%s)", id, step+1, opn)
+			fail := func(class, what string) {
+				vs.Violation(fmt.Sprintf("C18|partiallyblindrsa.state|%s|%s", class, opn), id, at+": "+what,
+					map[string]string{"key": k.name, "history": strings.Join(names[:min(step+1, len(names))], ",")})
+			}
+			r.Transition(1)
+			r.Eval(1)
+			p, what := verifmc.Try(func() {
+				switch op {
+				case 0:
+					if got := new(big.Int).SetBytes(state.CopyBlind()); got.Cmp(blind) != 0 {
+						fail("CopyBlind is not the blind the state was made with", "got "+got.Text(16))
+					}
+					r.Count("copyblind_calls", 1)
+				case 1:
+					if got := state.CopySalt(); !bytes.Equal(got, salt) {
+						fail("CopySalt is not the salt the state was made with", "got "+verifmc.Hex(got))
+					}
+				case 2, 4:
+					st := state
+					if op == 4 {
+						cp := state
+						st = cp
+					}
+					sig, err := st.Finalize(goodBS)
+					if err != nil {
+						fail("Finalize refuses the honest blind signature after this history", err.Error())
+						return
+					}
+					if !bytes.Equal(sig, ref.sig) {
+						fail("Finalize result differs from fresh objects", fmt.Sprintf("sig %s, fresh objects give %s", verifmc.Hex(sig), verifmc.Hex(ref.sig)))
+					}
+					if !k.oracle(m0, md0, sig) {
+						fail("signature not valid RSASSA-PSS under the derived key (crypto/rsa)", "sig "+verifmc.Hex(sig))
+					}
+					r.Count("finalize_good", 1)
+				case 3:
+					if _, err := state.Finalize(badBS); err == nil {
+						fail("Finalize accepts an altered blind signature", "flipped bit 13")
+					}
+					r.Count("finalize_altered", 1)
+				}
+			})
+			if p {
+				fail("panic:"+verifmc.PanicClass(what), what)
+				return
+			}
+		}
+	})
+	r.State(len(seqs))
+	r.Sample(map[string]string{"case": k.name + "/[CopyBlind,Finalize(altered),CopyBlind]", "oracle": "accessors equal the given values; Finalize byte-identical to fresh objects + crypto/rsa oracle"})
+	r.RequireCounter("copyblind_calls", 100)
+	r.RequireCounter("finalize_good", 700)
+	r.RequireCounter("finalize_altered", 100)
+}
+
 // ---------------------------------------------------------------------------------------------
 
 // TestVerifC18_pb_lengths: length alphabet for metadata and message (field-width boundaries of the 4-byte length
